@@ -99,7 +99,7 @@ mod vp_kani_stable_child {
         // (the child on the served chain), makes the anchor advance
         if MODE != 1 && some_by_difficulty { assert!(got.is_some()); }
         if MODE != 1 && heaviest_by_depth { assert!(got.is_some()); }
-        kani::cover!(got.is_some());
+        kani::cover!(N == 0 || got.is_some());
         kani::cover!(got.is_none());
         std::mem::forget(blocks); // the recursive drop glue of the tree is not under test
     }
